@@ -539,7 +539,7 @@ def main(tier):
         nesc += 1
         if prob:
             ck.violation("escape:" + name.split(":")[3] + ":" + prob.split(" ")[0], "%s\ncase %s\nprogram:\n%s" % (prob, name, src), {"tool": "vdrv", "job": {"kind": "run", "opts": {"gc": "own", "warn": 0, "want": "ops"}, "blobs": {"src": src}}})
-    runs = ([["bfs", "full", 3, 10], ["bfs", "full", 4, 9]] + simlevel.HISTORY_RUNS_THOROUGH) if tier == "thorough" else ([["bfs", "full", 3, 8]] + simlevel.HISTORY_RUNS_QUICK)
+    runs = ([["bfs", "full", 3, 10], ["bfs", "full", 4, 9]] + simlevel.HISTORY_RUNS_THOROUGH + simlevel.COMPLEX_RUNS_THOROUGH) if tier == "thorough" else ([["bfs", "full", 3, 8]] + simlevel.HISTORY_RUNS_QUICK + simlevel.COMPLEX_RUNS_QUICK)
     res = simlevel.run_all(runs)
     simlevel.report(ck, res, {"C03"})
     for d in res:
